@@ -86,6 +86,22 @@ class Model:
     def invert(self):
         return Model(self.nodes, {(b, a) for a, b in self.edges})
 
+    def graft(self, node, sub):
+        '''Replace the node `node` (a nested graph whose content is the
+        model `sub`) by its content: what depended on it depends on its
+        initial nodes, its terminal nodes depend on what it depended on; an
+        empty one is transparent.'''
+        deps = self.deps(node) - {id(node)}
+        dees = self.dependees(node) - {id(node)}
+        self.remove_node(node)
+        self.merge(sub)
+        inits = [id(n) for n in sub.nodes if not sub.dependees(n)]
+        terms = [id(n) for n in sub.nodes if not sub.deps(n)]
+        self.edges |= {(t, d) for t in terms for d in deps}
+        self.edges |= {(e, i) for e in dees for i in inits}
+        if not sub.nodes:
+            self.edges |= {(e, d) for e in dees for d in deps}
+
     def reach(self):
         '''id -> set of ids reachable by >= 1 edge.'''
         adj = {id(n): set() for n in self.nodes}
@@ -416,8 +432,8 @@ def to_graph(model, nested=None):
     byid = {id(n): n for n in model.nodes}
     for node in model.nodes:
         graph.add_node(node)
-    for a, b in sorted(model.edges, key=lambda e: (repr(byid[e[0]]),
-                                                   repr(byid[e[1]]))):
+    posn = {id(n): i for i, n in enumerate(model.nodes)}
+    for a, b in sorted(model.edges, key=lambda e: (posn[e[0]], posn[e[1]])):
         graph.add_dependency(byid[a], on=byid[b])
     return graph
 
@@ -428,15 +444,26 @@ def run_history(seed, idx, rec):
     rng = core.rng_for(seed, PROP, idx)
     case = {'seed': seed, 'idx': idx}
     pool = [Node(i) for i in range(rng.randint(2, 9))]
-    graph, model = DepGraph(), Model()
     frozen = []          # (graph, model copy, label): must never change
+    subs = {}            # id(nested graph used as a node) -> its model
+    if rng.random() < 0.3:
+        # nested graphs used as nodes: two empty ones (equal, distinct), a
+        # flat one over plain nodes of the pool and its look-alike
+        flat = random_dag_model(rng, pool, 3)
+        for sub_m in (Model(), Model(), flat, flat.copy()):
+            sub_g = to_graph(sub_m)
+            subs[id(sub_g)] = sub_m
+            pool.append(sub_g)
+            frozen.append((sub_g, sub_m.copy(), 'graph used as a node'))
+        rec.count('histories_with_graph_nodes')
+    graph, model = DepGraph(), Model()
     ops = []
     nsteps = rng.randint(3, 40)
     for step in range(nsteps):
         opn = rng.choice(['add_node', 'add_dep', 'add_dep', 'add_dep',
                           'remove_node', 'remove_dep', 'copy', 'merge',
                           'plus', 'invert', 'remove_missing', 'closure',
-                          'reduce'])
+                          'reduce', 'add_self', 'graft'])
         ops.append(opn)
         where = f'step {step} {opn} (ops={ops[-6:]})'
         try:
@@ -448,6 +475,26 @@ def run_history(seed, idx, rec):
                 a, b = rng.sample(pool, 2)
                 graph.add_dependency(a, on=b)
                 model.add_edge(a, b)
+            elif opn == 'add_self':
+                # a node that depends on itself (possibly its first
+                # appearance in the graph)
+                node = rng.choice(pool)
+                graph.add_dependency(node, on=node)
+                model.add_edge(node, node)
+            elif opn == 'graft':
+                inside = [n for n in model.nodes if id(n) in subs
+                          and (id(n), id(n)) not in model.edges]
+                if not inside:
+                    continue
+                node = inside[rng.randrange(len(inside))]
+                frozen.append((graph, model.copy(), f'pre-graft@{step}'))
+                graph = graph.copy()
+                res = graph.graft(node)
+                model = model.copy()
+                model.graft(node, subs[id(node)])
+                if res is not graph:
+                    rec.violation('graft-returned-other-object', where, case)
+                rec.count('grafts_in_histories')
             elif opn == 'remove_node':
                 node = rng.choice(pool)
                 graph.remove_node(node)
@@ -456,8 +503,9 @@ def run_history(seed, idx, rec):
                 if not model.edges:
                     continue
                 byid = {id(n): n for n in model.nodes}
+                posn = {id(n): i for i, n in enumerate(model.nodes)}
                 a, b = rng.choice(sorted(model.edges, key=lambda e: (
-                    repr(byid[e[0]]), repr(byid[e[1]]))))
+                    posn[e[0]], posn[e[1]])))
                 graph.remove_dependency(byid[a], on=byid[b])
                 model.edges.discard((a, b))
             elif opn == 'remove_missing':
@@ -492,7 +540,7 @@ def run_history(seed, idx, rec):
                     model.merge(other_m)
             elif opn in ('closure', 'reduce'):
                 # in place, on the very object that has been queried so far
-                if model.cyclic():
+                if model.cyclic() or any(id(n) in subs for n in model.nodes):
                     continue
                 reach = model.reach()
                 if opn == 'closure':
@@ -531,9 +579,12 @@ def run_history(seed, idx, rec):
                               case)
                 return
             rec.count('copies_rechecked')
-    check_toposort(graph, model, rec, case, f'end of history ops={ops}')
-    if not model.cyclic() and len(model.nodes) <= 7:
-        check_algorithms(graph, model, rec, case, 'end of history')
+    if not any(id(n) in subs for n in model.nodes):
+        # (nested graphs are not hashable: the sort and the algorithms are
+        # only claimed for hashable nodes)
+        check_toposort(graph, model, rec, case, f'end of history ops={ops}')
+        if not model.cyclic() and len(model.nodes) <= 7:
+            check_algorithms(graph, model, rec, case, 'end of history')
     for old_g, old_m, label in frozen:
         compare(old_g, old_m, rec, case, f'end: earlier graph {label}',
                 full=False)
@@ -566,6 +617,15 @@ def run_flatten(seed, idx, rec):
                     if any(sub_g is mem for mem in members):
                         continue
                     shared.append((sub_g, sub_spec))
+                elif created and rng.random() < 0.2 and \
+                        not created[-1][1]['nested']:
+                    # a look-alike: another object with the same content as
+                    # an earlier (flat) sub-graph
+                    sub_spec = {'model': created[-1][1]['model'].copy(),
+                                'nested': {}}
+                    sub_g = to_graph(sub_spec['model'])
+                    created.append((sub_g, sub_spec))
+                    twins.append(sub_g)
                 else:
                     sub_g, sub_spec = make_sub(depth + 1, size)
                     created.append((sub_g, sub_spec))
@@ -592,7 +652,7 @@ def run_flatten(seed, idx, rec):
             return to_graph(model), {'model': model, 'nested': {}}
         return graph, spec
 
-    created, shared = [], []
+    created, shared, twins = [], [], []
     graph, spec = make(0)
     if not spec['nested']:
         return
@@ -610,6 +670,8 @@ def run_flatten(seed, idx, rec):
         return
     if shared:
         rec.count('flatten_cases_with_shared_subgraph_object')
+    if twins:
+        rec.count('flatten_cases_with_look_alike_subgraphs')
     sizes = sorted(len(sub.nodes) for sub, _ in spec['nested'].values())
 
     def any_empty(nested):
@@ -630,6 +692,15 @@ def run_flatten(seed, idx, rec):
         rec.violation('flatten-raised-' + type(err).__name__,
                       f'{where}: {err!r}', case)
         return
+    # flattening a copy leaves the original and every nested graph as it was
+    if compare(graph, spec['model'], rec, case,
+               f'{where}: original after flatten() of its copy', full=False):
+        for sub_g, sub_spec in created:
+            if not compare(sub_g, sub_spec['model'], rec, case,
+                           f'{where}: nested graph after flatten() of the '
+                           'outer copy', full=False):
+                break
+            rec.count('nested_graphs_rechecked_after_flatten')
     from valjean.cosette.depgraph import DepGraph
     left = [n for n in flat.nodes() if isinstance(n, DepGraph)]
     if left:
